@@ -144,8 +144,37 @@ Definition free (f : done -> Z) (c : cells_t) (d : done) : Z := if celled (d_id 
 (* each live request once: not-split requests through their single reference, split ones through their cell *)
 Definition LS (f : done -> Z) (c : cells_t) (R : list done) : Z := dsum (free f c) R + csum f c.
 
+(* sizes are non-negative *)
+Definition negf (d : done) : Z := if d_el d <? 0 then 1 else 0.
+Lemma negf_nonneg d : 0 <= negf d. Proof. unfold negf. destruct (_ <? _); lia. Qed.
+
+Lemma dsum_nonneg_in g l : (forall d, In d l -> 0 <= g d) -> 0 <= dsum g l.
+Proof.
+  induction l as [|a l IH]; intros H; [rewrite dsum_nil; lia|]. rewrite dsum_cons.
+  pose proof (H a (or_introl eq_refl)). assert (0 <= dsum g l) by (apply IH; intros; apply H; now right). lia.
+Qed.
+
+Lemma csum_nonneg f (c : cells_t) : (forall id d n acc, In (id, (d, (n, acc))) c -> 0 <= f d) -> 0 <= csum f c.
+Proof.
+  unfold csum. induction c as [|[id [d [n acc]]] c IH]; intros H; [simpl; lia|]. cbn [map sumZ fst snd].
+  pose proof (H id d n acc (or_introl eq_refl)). assert (0 <= sumZ (map (fun x => f (fst (snd x))) c)) by (apply IH; intros; eapply H; right; eauto). lia.
+Qed.
+
+Lemma LS_el_nonneg c R :
+  dsum negf R = 0 -> (forall id d n acc, In (id, (d, (n, acc))) c -> 0 <= d_el d) -> 0 <= LS d_el c R.
+Proof.
+  intros HR Hc. unfold LS. pose proof (csum_nonneg d_el c Hc).
+  assert (0 <= dsum (free d_el c) R).
+  { apply dsum_nonneg_in. intros d Hd. unfold free. destruct (celled (d_id d) c); [lia|].
+    pose proof (dsum_zero_in negf R negf_nonneg HR d Hd) as Z0. unfold negf in Z0. destruct (d_el d <? 0) eqn:E; [discriminate|]. now apply Z.ltb_ge in E. }
+  lia.
+Qed.
+
 Section Inv.
   Variable o : eopts.
+  (* NN: "every size offered so far is non-negative"; the facts that need it are stated under it, so that
+     the invariant can be used with NN := True (histories of non-negative item counts) or NN := False *)
+  Variable NN : Prop.
 
   Definition qel (q : list (nat * Z)) : Z := sumZ (map (fun p => el_size o (snd p)) q).
 
@@ -157,18 +186,26 @@ Section Inv.
     g_old : dsum (oldf nx) R = 0;
     g_cold : forall id, In id (ckeys c) -> (id < nx)%nat;
     g_mem : is_storage o = false -> qs = qel q + LS d_el c R;
-    g_sto : is_storage o = true -> sto - kept = qsum q + LS d_items c R }.
+    g_sto : is_storage o = true -> sto - kept = qsum q + LS d_items c R;
+    g_nn : NN -> dsum negf R = 0 /\ (forall id d n acc, In (id, (d, (n, acc))) c -> 0 <= d_el d) /\
+                 Forall (fun p => 0 <= el_size o (snd p)) q /\
+                 (is_storage o = true -> 0 <= qs <= qel q + LS d_el c R) }.
+
+  Lemma qel_nonneg q : Forall (fun p => 0 <= el_size o (snd p)) q -> 0 <= qel q.
+  Proof. unfold qel. induction 1; cbn [map sumZ]; lia. Qed.
 
   Definition req (R1 R2 : list done) : Prop := forall g, dsum g R1 = dsum g R2.
 
   Lemma GIR_equiv c q nx qs sto kept R1 R2 : req R1 R2 -> GIR c q nx qs sto kept R1 -> GIR c q nx qs sto kept R2.
   Proof.
-    intros E [A B C D F G H I]. constructor; auto.
+    intros E [A B C D F G H I J]. constructor; auto.
     - intros id d n acc Hin. unfold occZ. rewrite <- E. exact (B id d n acc Hin).
     - intros id Hin. unfold occZ. rewrite <- E. exact (D id Hin).
     - rewrite <- E. exact F.
     - intros Hs. unfold LS. rewrite <- E. exact (H Hs).
     - intros Hs. unfold LS. rewrite <- E. exact (I Hs).
+    - intros HN. destruct (J HN) as (J1 & J2 & J3 & J4). split; [rewrite <- E; exact J1|]. split; [exact J2|]. split; [exact J3|].
+      intros Hs. unfold LS. rewrite <- E. exact (J4 Hs).
   Qed.
 
   (* one reference is consumed: Done.OnDone *)
@@ -185,17 +222,19 @@ Section Inv.
     s_ref (on_done o d r st) = s_ref st /\ s_queue (on_done o d r st) = s_queue st /\ s_next (on_done o d r st) = s_next st /\
     s_cur (on_done o d r st) = s_cur st /\ s_hung (on_done o d r st) = s_hung st /\ s_flushq (on_done o d r st) = s_flushq st /\
     (is_storage o = false -> s_qsize (on_done o d r st) = s_qsize st - d_el d) /\
-    (is_storage o = true -> s_stored (on_done o d r st) - s_kept (on_done o d r st) = s_stored st - s_kept st - d_items d).
+    (is_storage o = true -> s_stored (on_done o d r st) - s_kept (on_done o d r st) = s_stored st - s_kept st - d_items d) /\
+    (is_storage o = true -> s_qsize (on_done o d r st) = Z.max 0 (s_qsize st - d_el d)).
   Proof.
     unfold on_done. cbn. repeat split.
     - intros H. now rewrite H.
     - intros H. rewrite H. cbn. destruct (eres_is_shutdown r); cbn; lia.
+    - intros H. now rewrite H.
   Qed.
 
   Lemma fire_G r st d held : GI st (d :: held) -> GI (fire o r st d) held.
   Proof.
     unfold GI, refs. cbn [app]. set (R' := held ++ odones (s_cur st) ++ odones (s_hung st)).
-    intros [A B C D F G H I]. unfold fire.
+    intros [A B C D F G H I J]. unfold fire.
     destruct (ref_lookup (d_id d) (s_ref st)) as [[d0 [n acc]]|] eqn:L.
     - pose proof (lookup_some _ _ _ L) as Hin. destruct (B _ _ _ _ Hin) as [Bn B1].
       unfold occZ in Bn. rewrite dsum_cons in Bn. unfold occf at 1 in Bn. rewrite Nat.eqb_refl in Bn. fold (occZ (d_id d) R') in Bn.
@@ -205,7 +244,7 @@ Section Inv.
       destruct (n <=? 1) eqn:E1.
       + apply Z.leb_le in E1. pose proof (occZ_nonneg (d_id d) R'). assert (Z0 : occZ (d_id d) R' = 0) by lia.
         set (st1 := set_ref st (ref_remove (d_id d) (s_ref st))).
-        destruct (on_done_view d0 (comb acc r) st1) as (V1 & V2 & V3 & V4 & V5 & V6 & V7 & V8).
+        destruct (on_done_view d0 (comb acc r) st1) as (V1 & V2 & V3 & V4 & V5 & V6 & V7 & V8 & V9).
         rewrite V1, V2, V3, V4, V5. subst st1. cbn [s_ref s_queue s_next s_cur s_hung set_ref] in *.
         assert (Hfree : forall f, dsum (free f (ref_remove (d_id d) (s_ref st))) R' = dsum (free f (s_ref st)) R').
         { intros f. apply free_same. intros x Hx. apply remove_celled; auto. eapply occZ_zero_neq; eauto. }
@@ -222,6 +261,15 @@ Section Inv.
           rewrite (remove_csum d_el _ _ _ A L). rewrite Hfd. cbn. lia.
         * intros Hs. rewrite (V8 Hs). cbn [s_stored s_kept set_ref]. rewrite (I Hs). unfold LS. rewrite dsum_cons, Hfree.
           rewrite (remove_csum d_items _ _ _ A L). rewrite Hfd. cbn. lia.
+        * intros HN. destruct (J HN) as (J1 & J2 & J3 & J4). rewrite dsum_cons in J1.
+          pose proof (negf_nonneg d). pose proof (dsum_nonneg negf R' negf_nonneg).
+          assert (N1' : dsum negf R' = 0) by lia.
+          assert (N2' : forall id x m a, In (id, (x, (m, a))) (ref_remove (d_id d) (s_ref st)) -> 0 <= d_el x)
+            by (intros id x m a Hi; apply remove_in in Hi; auto; destruct Hi as [Hi _]; eauto).
+          split; [exact N1'|]. split; [exact N2'|]. split; [exact J3|]. intros Hs. rewrite (V9 Hs). cbn [s_qsize set_ref].
+          pose proof (LS_el_nonneg _ _ N1' N2') as HL. pose proof (qel_nonneg _ J3) as HQ. specialize (J4 Hs).
+          unfold LS in *. rewrite dsum_cons, Hfd in J4. rewrite Hfree. rewrite Hfree in HL.
+          rewrite (remove_csum d_el _ _ _ A L) in *. cbn [fst] in *. lia.
       + apply Z.leb_gt in E1. cbn [s_ref s_queue s_next s_qsize s_stored s_kept s_cur s_hung set_ref].
         set (c' := (d_id d, (d0, (n - 1, comb acc r))) :: ref_remove (d_id d) (s_ref st)).
         assert (Hcel : forall id, celled id c' = celled id (s_ref st)).
@@ -247,9 +295,15 @@ Section Inv.
           apply G. eapply remove_keys; eauto.
         * intros Hs. rewrite (H Hs). unfold LS. rewrite dsum_cons, Hfree, Hcs. rewrite Hfd. lia.
         * intros Hs. rewrite (I Hs). unfold LS. rewrite dsum_cons, Hfree, Hcs. rewrite Hfd. lia.
+        * intros HN. destruct (J HN) as (J1 & J2 & J3 & J4). rewrite dsum_cons in J1.
+          pose proof (negf_nonneg d). pose proof (dsum_nonneg negf R' negf_nonneg).
+          split; [lia|]. split; [|split; [exact J3|]].
+          -- intros id x m a Hi. unfold c' in Hi. destruct Hi as [Hi|Hi]; [inversion Hi; subst; eauto|].
+             apply remove_in in Hi; auto. destruct Hi as [Hi _]. eauto.
+          -- intros Hs. specialize (J4 Hs). unfold LS in *. rewrite dsum_cons, Hfd in J4. rewrite Hfree, Hcs. lia.
     - apply lookup_none in L.
       assert (Hfd : forall f, free f (s_ref st) d = f d) by (intros f; unfold free; now rewrite L).
-      destruct (on_done_view d r st) as (V1 & V2 & V3 & V4 & V5 & V6 & V7 & V8). rewrite V1, V2, V3, V4, V5.
+      destruct (on_done_view d r st) as (V1 & V2 & V3 & V4 & V5 & V6 & V7 & V8 & V9). rewrite V1, V2, V3, V4, V5.
       fold R'. constructor; auto.
       + intros id x m a Hi. destruct (B _ _ _ _ Hi) as [Q1 Q2]. split; auto. unfold occZ in Q1. rewrite dsum_cons in Q1.
         unfold occf at 1 in Q1. destruct (Nat.eqb (d_id d) id) eqn:Q; [|exact Q1].
@@ -260,5 +314,11 @@ Section Inv.
       + rewrite dsum_cons in F. pose proof (oldf_nonneg (s_next st) d). pose proof (dsum_nonneg (oldf (s_next st)) R' (oldf_nonneg _)). lia.
       + intros Hs. rewrite (V7 Hs), (H Hs). unfold LS. rewrite dsum_cons. rewrite Hfd. lia.
       + intros Hs. rewrite (V8 Hs), (I Hs). unfold LS. rewrite dsum_cons. rewrite Hfd. lia.
+      + intros HN. destruct (J HN) as (J1 & J2 & J3 & J4). rewrite dsum_cons in J1.
+        pose proof (negf_nonneg d). pose proof (dsum_nonneg negf R' negf_nonneg).
+        assert (N1' : dsum negf R' = 0) by lia.
+        split; [exact N1'|]. split; [exact J2|]. split; [exact J3|]. intros Hs. rewrite (V9 Hs).
+        pose proof (LS_el_nonneg _ _ N1' J2) as HL. pose proof (qel_nonneg _ J3) as HQ. specialize (J4 Hs).
+        unfold LS in *. rewrite dsum_cons, Hfd in J4. lia.
   Qed.
 End Inv.
